@@ -75,6 +75,9 @@ WORLDS = {
     # a registered function is redefined and registered again under the same name while another registered function calls it
     'redef': dict(cfg={'p': 2, 'q': 0, 'r': 0}, wrapper=False, redef=True),
     'redef+w': dict(cfg={'p': 2, 'q': 0, 'r': 0}, wrapper=True, redef=True),
+    # two different registered functions that share a __name__ (e.g. made by a factory)
+    'samename': dict(cfg={'p': 2, 'q': 0, 'r': 0}, wrapper=False, samename=True),
+    'samename+w': dict(cfg={'p': 2, 'q': 0, 'r': 0}, wrapper=True, samename=True),
     # d = 7: the blade table is filled lazily, so it is part of the history dependent state
     'lazy7': dict(cfg={'p': 6, 'q': 0, 'r': 1}, wrapper=False, lazy=True),
 }
@@ -149,8 +152,21 @@ def make_world(world_id):
     ctx['sq'] = alg.register(sq)
     ctx['g'] = alg.register(g)
     ctx['hs'] = alg.register(symbolic=True)(h)
+    if w.get('samename'):
+        def factory(sign):
+            def twin(a, b):
+                return a * b + sign * a
+            return twin
+        ctx['tw_py'] = [factory(1), factory(-1)]
+        ctx['tw'] = [alg.register(t) for t in ctx['tw_py']]
+        ctx['stw_py'] = [factory(2), factory(-2)]
+        ctx['stw'] = [alg.register(symbolic=True)(t) for t in ctx['stw_py']]
+
+        def outer(a, b):
+            return ctx['tw'][0](a, b) + b
+        ctx['outer'] = alg.register(outer)
     ctx['_operands'] = ['x1', 'x2', 'x3', 'x4', 'x5', 'e', 'z', 's1', 's2', 'y']
-    ctx['_redef_world'] = bool(w.get('redef'))
+    ctx['_redef_world'] = bool(w.get('redef')) or bool(w.get('samename'))
     return ctx
 
 
@@ -191,9 +207,18 @@ def _redef(c):
 
 
 SYMBOLS['redef'] = _redef
+SYMBOLS['twinA'] = lambda c: c['tw'][0](c['x2'], c['e'])
+SYMBOLS['twinB'] = lambda c: c['tw'][1](c['x2'], c['e'])
+SYMBOLS['twinOuter'] = lambda c: c['outer'](c['x2'], c['e'])
+SYMBOLS['stwinA'] = lambda c: c['stw'][0](c['x2'], c['e'])
+SYMBOLS['stwinB'] = lambda c: c['stw'][1](c['x2'], c['e'])
+SAMENAME_ALPHA = ['twinA', 'twinB', 'twinOuter', 'stwinA', 'stwinB']
 REDEF_ALPHA = ['f2', 'g2', 'redef', 'gp2', 'f1']
 # symbols whose expected outcome is the direct evaluation of the plain python function in the *current* world
-DIRECT = {'f2': lambda c: c['f_py'](c['x2'], c['e']), 'f1': lambda c: c['f_py'](c['x1'], c['e']), 'g2': lambda c: c['g_py'](c['x2'], c['e'])}
+DIRECT = {'stwinA': lambda c: c['stw_py'][0](c['x2'], c['e']), 'stwinB': lambda c: c['stw_py'][1](c['x2'], c['e']),
+          'twinA': lambda c: c['tw_py'][0](c['x2'], c['e']), 'twinB': lambda c: c['tw_py'][1](c['x2'], c['e']),
+          'twinOuter': lambda c: c['tw_py'][0](c['x2'], c['e']) + c['e'],
+          'f2': lambda c: c['f_py'](c['x2'], c['e']), 'f1': lambda c: c['f_py'](c['x1'], c['e']), 'g2': lambda c: c['g_py'](c['x2'], c['e'])}
 
 
 def expected(name, ctx, fresh):
@@ -226,6 +251,8 @@ def alphabet(world_id):
         return {n: SYMBOLS[n] for n in REDEF_ALPHA}
     if WORLDS[_wid(world_id)].get('lazy'):
         return {n: SYMBOLS[n] for n in LAZY_ALPHA}
+    if WORLDS[_wid(world_id)].get('samename'):
+        return {n: SYMBOLS[n] for n in SAMENAME_ALPHA}
     return {n: SYMBOLS[n] for n in _ALPHA[tier]}
 
 
@@ -368,10 +395,86 @@ def fault_task(task):
     return recs
 
 
+# ---------------------------------------------------------------------------------------------- pairwise interference
+P_BINARY = ['gp', 'sw', 'cp', 'acp', 'ip', 'sp', 'lc', 'rc', 'op', 'rp', 'proj', 'add', 'sub', 'div']
+P_UNARY = ['inv', 'neg', 'reverse', 'involute', 'conjugate', 'polarity', 'unpolarity', 'hodge', 'unhodge', 'normsq', 'outerexp', 'outersin', 'outercos', 'outertan']
+P_LAYOUTS = ['x2', 'x5', 'x1', 'x4']
+
+
+def _pcall(ctx, sym):
+    """sym = (operator, layout, mode); mode 'direct' calls the operator, 'reg' a registered python function that uses it."""
+    op, lay, mode = sym
+    x = ctx[lay]
+    if mode == 'direct':
+        return getattr(x, op)(ctx['e']) if op in P_BINARY else getattr(x, op)()
+    regs = ctx.setdefault('_pregs', {})
+    if op not in regs:
+        ns = {}
+        if op in P_BINARY:
+            exec(f'def r_{op}(a, b):\n    return a.{op}(b)\n', ns)
+        else:
+            exec(f'def r_{op}(a):\n    return a.{op}()\n', ns)
+        regs[op] = ctx['alg'].register(ns[f'r_{op}'])
+    return regs[op](x, ctx['e']) if op in P_BINARY else regs[op](x)
+
+
+def pair_task(task):
+    """All histories [A, B, A] for the given list of (A, B): the second A must equal the first call of A on a fresh world,
+    and B after A must equal B on a fresh world."""
+    world_id, pairs = task
+    from ..explore import outcome
+    res = Result()
+    fresh = {}
+
+    def fresh_of(sym):
+        if sym not in fresh:
+            fresh[sym] = outcome(lambda c: _pcall(c, sym), make_world(world_id), normalise)
+        return fresh[sym]
+    for A, B in pairs:
+        A, B = tuple(A), tuple(B)
+        ctx = make_world(world_id)
+        before = snapshot(ctx)
+        seq = [A, B, A]
+        for i, sym in enumerate(seq):
+            out = outcome(lambda c: _pcall(c, sym), ctx, normalise)
+            res.transitions += 1
+            if out != fresh_of(sym):
+                w = 'wrapper' if WORLDS[_wid(world_id)]['wrapper'] else 'nowrapper'
+                same_op = A[0] == B[0]
+                res.violate(violation(f"pair:{w}:{A[2]}:{'same-operator-other-layout' if same_op else A[0] + '-after-' + B[0]}",
+                                      f'world {world_id}: in the history {seq[:i + 1]} the last call differs from the same call on a fresh algebra',
+                                      {'world': world_id, 'history': [], 'pair': [list(A), list(B)]}, fresh_of(sym), out))
+                break
+        if snapshot(ctx) != before:
+            res.violate(violation('pair:operand-mutated', f'world {world_id}: operands changed during {seq}', {'world': world_id, 'history': [], 'pair': [list(A), list(B)]}, before, snapshot(ctx)))
+        res.evals += 1
+    return res.asdict()
+
+
+def pair_histories(tier):
+    ops = P_BINARY + P_UNARY
+    out = []
+    for mode in ('direct', 'reg'):
+        # the same operator on two storage orders of one key set
+        for op in ops:
+            for l1, l2 in (('x1', 'x2'), ('x2', 'x1'), ('x4', 'x5'), ('x5', 'x4')):
+                out.append(((op, l1, mode), (op, l2, mode)))
+        # two different operators on the same operands
+        for lay in (('x2', 'x5') if tier == 'thorough' else ('x2',)):
+            for a in ops:
+                for b in ops:
+                    if a != b and ((a in P_BINARY) == (b in P_BINARY)):
+                        out.append(((a, lay, mode), (b, lay, mode)))
+    return out
+
+
 # ---------------------------------------------------------------------------------------------- cause signatures
 def cause(world_id, hist, kind):
     """Structural cause signature of a history violation: which kind, with/without wrapper, and the multiset of
     operator families on the (shortest) path."""
+    if WORLDS[_wid(world_id)].get('samename'):
+        w = 'wrapper' if WORLDS[_wid(world_id)]['wrapper'] else 'nowrapper'
+        return f'history:{kind}:{w}:same-named-registered-functions:{hist[-1]}'
     fam = lambda s: ''.join(ch for ch in s if not ch.isdigit())
     w = 'wrapper' if WORLDS[_wid(world_id)]['wrapper'] else 'nowrapper'
     return f"history:{kind}:{w}:{fam(hist[-1])}-after-{'+'.join(sorted({fam(s) for s in hist[:-1]}))}"
@@ -395,7 +498,7 @@ def drive(ctx):
     # BFS over the large alphabet with whatever time is left (it stops at a level boundary and reports the cap)
     worlds = [f'{w}|quick' for w in WORLDS]
     if tier == 'thorough':
-        worlds += ['THREADS'] + [f'{w}|thorough' for w in WORLDS if not WORLDS[w].get('perm') and not WORLDS[w].get('redef') and not WORLDS[w].get('lazy')]
+        worlds += ['THREADS'] + [f'{w}|thorough' for w in WORLDS if not WORLDS[w].get('perm') and not WORLDS[w].get('redef') and not WORLDS[w].get('lazy') and not WORLDS[w].get('samename')]
     samples = []
     threads_done = False
     for world_id in worlds:
@@ -424,7 +527,7 @@ def drive(ctx):
             ctx.capped.append(f'bfs[{world_id}]: {r["capped"]}')
         samples.append({'world': world_id, 'longest_shortest_history': list(r['sample_path'])})
         # wrapper fault menu
-        if WORLDS[_wid(world_id)]['wrapper'] and not WORLDS[_wid(world_id)].get('perm') and not WORLDS[_wid(world_id)].get('redef'):
+        if WORLDS[_wid(world_id)]['wrapper'] and not WORLDS[_wid(world_id)].get('perm') and not WORLDS[_wid(world_id)].get('redef') and not WORLDS[_wid(world_id)].get('samename'):
             from itertools import product
             if tier == 'quick' or not world_id.endswith('|quick'):
                 maxk, maxlen = 2, 2
@@ -444,6 +547,20 @@ def drive(ctx):
                         res.violate(violation(cause(wid, h + (name,), f'fault{k}:' + prob[0]), f'world {wid}: wrapper call #{k} raised during {list(h)}; '
                                               f'afterwards {name} differs from fresh', {'world': wid, 'history': list(h), 'fault_k': k, 'then': name}, prob[1], prob[2]))
             res.extra[f'faults[{world_id}]'] = {'histories': len(hists), 'fault_points_k': maxk, 'kinds': 'k-th call of a wrapped function raises; k-th application of the wrapper raises', 'faulted_executions_checked': nf}
+    # pairwise interference: histories [A, B, A] over (operator x layout x {direct, registered}), wrapper and no wrapper
+    from ..spaces import chunks as _chunks
+    ph = pair_histories(tier)
+    pworlds = ['vga2+w|quick', 'pga2|quick'] if tier == 'quick' else ['vga2+w|quick', 'vga2|quick', 'pga2+w|quick', 'pga2|quick']
+    ptasks = [(wid, ch) for wid in pworlds for ch in _chunks(ph, 24) if ch]
+    npairs = 0
+    for out in ctx.map('pair_task', ptasks):
+        npairs += out['evals']
+        res.evals += out['evals']
+        res.transitions += out['transitions']
+        res.traces += out['transitions']
+        for v in out['violations']:
+            res.violate(v)
+    res.extra['pairwise_interference'] = {'worlds': pworlds, 'histories_ABA': npairs, 'operators': len(P_BINARY) + len(P_UNARY), 'modes': ['direct', 'registered function']}
     res.nontrivial = res.states
     res.samples = samples[:3]
     # concurrent part
@@ -464,6 +581,8 @@ def replay(case):
         from . import C09_threads
         return C09_threads.replay(case)
     alpha = alphabet(wid)
+    if 'pair' in case:
+        return pair_task((wid, [case['pair']]))
     if 'fault_k' in case:
         fresh = {case['then']: outcome(alpha[case['then']], make_world(wid), normalise)}
         for name, prob, faulted in fault_task((wid, hist, case['fault_k'], fresh | {n: None for n in alpha if n != case['then']})):
